@@ -97,9 +97,8 @@ class Expander:
                 continue
             if i < n and text[i] == "(":
                 args, i = self.split_args(text, i + 1)
-                args = [self.expand_text(a, pm) for a in args]
-                if len(mac.params) == 0 and args == [""]:
-                    args = []
+                # NAME() of a macro without parameters: no argument (decided on the text as written, not on what it expands to)
+                args = [] if (len(mac.params) == 0 and args == [""]) else [self.expand_text(a, pm) for a in args]
                 out.append(self.expand_body(mac, args))
             else:
                 out.append(word)
@@ -194,9 +193,7 @@ class Expander:
                     out.append(self.expand_body(inner, []))
                 elif i < n and body[i] == "(":
                     a, i = self.split_args(body, i + 1)
-                    a = [self.expand_text(x, pm) for x in a]
-                    if len(inner.params) == 0 and a == [""]:
-                        a = []
+                    a = [] if (len(inner.params) == 0 and a == [""]) else [self.expand_text(x, pm) for x in a]
                     out.append(self.expand_body(inner, a))
                 else:
                     out.append(word)
